@@ -11,10 +11,10 @@ demopkg=./$(dirname $demo)
 echo "demo: $demo"
 git diff > /tmp/seed/$name.patch
 b=$(go build ./... 2>&1 | tail -3); echo "build: ${b:-ok}"
-t1=$(go test -vet=off -count=1 -skip 'TestSeedDemo|TestBridgeCallData|TestClaimCalldata|TestWithReorgs' $pkgs 2>&1 | grep -E "^(FAIL|---)" | head -5); echo "existing tests with change (docker-dependent tests and the baseline-flaky TestWithReorgs skipped): ${t1:-all ok}"
-d1=$(go test -vet=off -count=1 -run 'TestSeedDemo' $demopkg 2>&1 | grep -E "^(ok|FAIL|--- FAIL)" | head -3 | tr '\n' ' '); echo "demo with change: $d1"
+t1=$(go test -vet=off -count=1 -skip 'SeedDemo|TestBridgeCallData|TestClaimCalldata|TestWithReorgs' $pkgs 2>&1 | grep -E "^(FAIL|---)" | head -5); echo "existing tests with change (docker-dependent tests and the baseline-flaky TestWithReorgs skipped): ${t1:-all ok}"
+d1=$(go test -vet=off -count=1 -run 'SeedDemo' $demopkg 2>&1 | grep -E "^(ok|FAIL|--- FAIL)" | head -3 | tr '\n' ' '); echo "demo with change: $d1"
 git stash -q
-d2=$(go test -vet=off -count=1 -run 'TestSeedDemo' $demopkg 2>&1 | grep -E "^(ok|FAIL|--- FAIL)" | head -3 | tr '\n' ' '); echo "demo without change: $d2"
+d2=$(go test -vet=off -count=1 -run 'SeedDemo' $demopkg 2>&1 | grep -E "^(ok|FAIL|--- FAIL)" | head -3 | tr '\n' ' '); echo "demo without change: $d2"
 git stash pop -q
 mkdir -p /verif/seeded/$name
 cp /tmp/seed/$name.patch /verif/seeded/$name/patch.diff
